@@ -140,7 +140,7 @@ def replay(case):
     return out
 
 def run(tier, seed):
-    depth = 5 if tier == "quick" else 6
+    depth = 6 if tier == "quick" else 7
     res = explorer.explore(make_world, depth)
     cov = {"states": res.states, "transitions": res.transitions, "traces_validated_against_impl": res.transitions,
            "samples": res.samples, "exhaustive": res.complete, "depth": res.max_depth, "level_sizes": res.level_sizes,
@@ -151,8 +151,8 @@ def run(tier, seed):
                    "After every event: .grad of p and q == ledger (sum of forward-mode contributions since last reset), unreachable "
                    "leaves byte-identical, every caller-owned g byte-identical"}
     if tier == "thorough":
-        a = explorer.explore(make_world, 4, merge=False); b = explorer.explore(make_world, 4)
-        cov["audit_unmerged_depth4"] = {"states": a.states, "transitions": a.transitions, "violation_kinds": sorted(a.violation_counts)}
+        a = explorer.explore(make_world, 5, merge=False); b = explorer.explore(make_world, 5)
+        cov["audit_unmerged_depth5"] = {"states": a.states, "transitions": a.transitions, "violation_kinds": sorted(a.violation_counts)}
         if sorted(a.violation_counts) != sorted(b.violation_counts):
             res.violations.append({"kind": "harness:merge-unsound", "detail": "unmerged audit differs", "case": {}})
     return {"level": "model_checking", "violations": res.violations, "coverage": cov,
